@@ -24,7 +24,7 @@ from ..common import rng_for, b2j
 
 LEVEL = "exploration"
 SHARDS = {"quick": 8, "thorough": 16}
-REQUIRED = ("seeded_truncated_cache_situations", "seeded_cookieless_cache_situations", "direction_ladder_histories", "construct_probes_judged", "aba_same_process_steps", "definitions_probed", "cache_hits_observed", "cache_rewrites_observed", "same_length_variant_switches",
+REQUIRED = ("seeded_truncated_cache_situations", "seeded_own_truncated_cache_situations", "optimizing_interpreter_histories", "definitions_under_python_O_not_probed", "seeded_cookieless_cache_situations", "direction_ladder_histories", "construct_probes_judged", "aba_same_process_steps", "definitions_probed", "cache_hits_observed", "cache_rewrites_observed", "same_length_variant_switches",
             "stale_pyc_situations", "orphan_pyc_situations", "seeded_foreign_cache_situations", "same_process_redefinitions",
             "bytecode_on_definitions", "bytecode_off_definitions", "earlier_classes_reprobed", "option_only_switches")
 MIN_NONTRIVIAL = 20
@@ -145,19 +145,24 @@ def run_history(run, rng, pool, scratch, hid, sources, nsteps):
     pending_meta = []
     proc_bytecode = False
     force_mtime = None
+    proc_optimize = False
     steps_desc = []
 
     def flush():
-        nonlocal pending_proc, pending_meta, force_mtime
+        nonlocal pending_proc, pending_meta, force_mtime, proc_optimize
         if not pending_proc:
             return True
         hooks = {"mode": "log"}
         if force_mtime is not None:
             hooks["force_mtime"] = force_mtime
-        r = procs.run_child(procs.base_job(workdir, pending_proc, bytecode=proc_bytecode, hooks=hooks), workdir)
+        job = procs.base_job(workdir, pending_proc, bytecode=proc_bytecode, hooks=hooks)
+        if proc_optimize:
+            job["optimize"] = True
+        r = procs.run_child(job, workdir)
         ok = judge_process(run, r, pending_meta, by_tag, history, workdir)
         pending_proc, pending_meta = [], []
         force_mtime = None
+        proc_optimize = False
         return ok
 
     # some histories start with an A-B-A (or A-B-A-B) pattern inside ONE process: a declaration comes back
@@ -176,10 +181,25 @@ def run_history(run, rng, pool, scratch, hid, sources, nsteps):
         forced = [(by_tag[x], False), (one, True), (by_tag[y], True)] + ([(by_tag[x], True)] if rng.random() < 0.5 else [])
         nsteps = max(nsteps, len(forced) + 1)
         run.count("direction_ladder_histories")
+    elif rng.random() < 0.3:
+        # an optimizing interpreter in between: X defined by a plain process (bytecode on), its same-length twin Y by a `python -O`
+        # process (whose bytecode goes to another file name, so X's survives) within the same second, then Y by a plain process
+        twins = [u for u in pool if getattr(u, "twin", None)]
+        if twins:
+            x = rng.choice(twins)
+            y = by_tag[x.twin]
+            forced = [(x, False, {"bytecode": True}), (y, False, {"optimize": True, "same_mtime": True}), (y, False, {"bytecode": True, "same_mtime": True})]
+            if rng.random() < 0.5:
+                forced.append((x, False, {"bytecode": True, "same_mtime": True}))
+            nsteps = max(nsteps, len(forced) + 1)
+            run.count("optimizing_interpreter_histories")
     for s in range(nsteps):
         # choose variant: bias to twins (same-length) and option-only changes of the previous one
+        extras = {}
         if forced:
-            v, same_proc_forced = forced.pop(0)
+            item = forced.pop(0)
+            v, same_proc_forced = item[0], item[1]
+            extras = item[2] if len(item) > 2 else {}
             if same_proc_forced:
                 run.count("aba_same_process_steps")
         elif prev is not None and getattr(prev, "twin", None) and rng.random() < 0.45:
@@ -195,7 +215,17 @@ def run_history(run, rng, pool, scratch, hid, sources, nsteps):
             if not flush():
                 return
             proc_bytecode = bytecode
-            if prev is not None:
+            if extras:
+                proc_bytecode = True
+                proc_optimize = bool(extras.get("optimize"))
+                plain_pycs = [q for q in procs.pyc_files(workdir) if ".opt-" not in os.path.basename(q)]
+                rec = pyc_recorded(plain_pycs[0]) if plain_pycs and extras.get("same_mtime") else None
+                if rec:
+                    force_mtime = rec[0]
+                    tamper = "same-mtime-as-pyc"
+                if proc_optimize:
+                    tamper = (tamper + "+" if tamper else "") + "python-O"
+            elif prev is not None:
                 r = rng.random()
                 cf = procs.cache_file(workdir, MODULE, v.cls)
                 pycs = procs.pyc_files(workdir)
@@ -241,6 +271,28 @@ def run_history(run, rng, pool, scratch, hid, sources, nsteps):
                     import shutil
                     shutil.rmtree(procs.cache_dir(workdir), ignore_errors=True)
                     tamper = "remove-cache"
+                elif r < 0.8:
+                    # the module of THIS declaration (matching stamp) as a writer that died - or an older release that wrote in
+                    # place - leaves it: a prefix, cut between two top-level statements (one function there, the other not) or anywhere
+                    txt = generated_source_of(v, scratch, sources)
+                    if txt:
+                        lines = txt.splitlines(True)
+                        tops = [i for i, l in enumerate(lines) if i > 0 and l[:1] not in (" ", "\t", "\n", "#", "")]
+                        defs = [i for i in tops if lines[i].startswith("def ")]
+                        if defs and rng.random() < 0.6:
+                            k = sum(len(l) for l in lines[:defs[-1]])
+                            how = "before-last-function"
+                        elif tops and rng.random() < 0.5:
+                            k = sum(len(l) for l in lines[:rng.choice(tops)])
+                            how = "between-statements"
+                        else:
+                            k = rng.randrange(1, max(2, len(txt) - 1))
+                            how = "anywhere"
+                        os.makedirs(procs.cache_dir(workdir), exist_ok=True)
+                        with open(cf, "w") as f:
+                            f.write(txt[:k])
+                        tamper = "seed-own-truncated-%s-at-%d" % (how, k)
+                        run.count("seeded_own_truncated_cache_situations")
         else:
             run.count("same_process_redefinitions")
         if prev is not None and prev.tag != v.tag:
@@ -252,6 +304,8 @@ def run_history(run, rng, pool, scratch, hid, sources, nsteps):
         act["tag"] = "%s#%d" % (v.tag, s)
         pending_proc.append(act)
         meta = {"variant": v.tag, "same_process": same_proc, "bytecode": proc_bytecode, "tamper": tamper, "prev": prev.tag if prev else None}
+        if proc_optimize and not same_proc:
+            meta["optimize"] = True
         pending_meta.append(meta)
         history.append(meta)
         run.count("bytecode_on_definitions" if proc_bytecode else "bytecode_off_definitions")
@@ -281,6 +335,11 @@ def judge_process(run, r, metas, by_tag, history, workdir):
             run.violation("defining the class raised %s: %s" % (act["exception"]["type"], act["exception"]["msg"][:160]),
                           dict(wit, traceback=act["exception"]["tb"][-800:]), None)
             return False
+        if meta.get("optimize"):
+            # under -O the library's own assert statements (its short-read and delimiter checks) are stripped: what such a process
+            # parses is not judged, only that the class can be defined and what it leaves behind for the next process
+            run.count("definitions_under_python_O_not_probed")
+            continue
         run.count("definitions_probed")
         bad = v.judge_probe(act["probe"]) + v.judge_constructs(act.get("construct_probe"))
         if v.constructs:
